@@ -6,6 +6,7 @@ ctxmgr        generator context managers restore their state in a `finally` (exc
 memo_shared   no functools cache on a function that hands out a fresh mutable container (callers mutate the shared value)
 """
 import ast
+import re
 from sa.model import unparse, call_name, kwarg, walk_no_nested, AnalysisError
 
 
@@ -151,6 +152,19 @@ def memo_shared(chk, repo, rid, mod_prefixes, floor=0):
             continue
         cached = any(('lru_cache' in unparse(d) or unparse(d) in ('cache', 'functools.cache')) for d in f.node.decorator_list)
         chk.functions.add(f.qual)
+        # hand-written memo: `if self.A is None: self.A = <parsed records>` ... `return self.A` - every caller receives the object that is kept
+        kept = {unparse(t) for a in walk_no_nested(f.node) if isinstance(a, ast.Assign) for t in a.targets
+                if isinstance(t, ast.Attribute) and isinstance(t.value, ast.Name) and t.value.id == 'self'
+                and isinstance(a.value, (ast.Call, ast.ListComp, ast.List, ast.DictComp, ast.Dict)) and f.node.name not in ('__init__',)}
+        guarded = {k for k in kept if any(isinstance(i, ast.If) and k in unparse(i.test) and ('is None' in unparse(i.test) or 'not ' in unparse(i.test))
+                                          for i in walk_no_nested(f.node))}
+        rets_ = [unparse(r.value) for r in walk_no_nested(f.node) if isinstance(r, ast.Return) and r.value is not None]
+        shared_ = sorted(k for k in guarded if k in rets_)
+        if shared_ and (f.node.name.startswith(('load', 'parse', 'read')) or 'record' in f.node.name.lower()):
+            chk.ob(rid, f"{f.qual}: parsed records are not kept and handed out again", f.where, False,
+                   f"{f.qual} keeps what it parsed in {shared_} and returns that same object on every later call: callers that adjust records in place "
+                   "(shift_breakpoint_to_closest_exon, shift_deletion_up) see their own earlier changes the next time the block is loaded", key=f"{f.qual}::memo-shared", fn=f.qual)
+            continue
         if not cached:
             continue
         mutable = False
@@ -1356,3 +1370,37 @@ def loop_own_exits(loop):
     for b in loop.body:
         rec_stmt(b, 0)
     return out
+
+
+def lazy_cache_starts_empty(chk, repo, rid, mod_prefixes, floor=1):
+    """R-FRESH: an attribute that a method fills lazily (`if self.A is None: self.A = <computed from the object>`) is a cache of a
+    derived quantity; the constructor must start it empty (`self.A = None`) so that what the cache holds is always what the
+    method computes - a value handed in from outside can disagree with the object (a running total that missed an element).
+    Instances are discovered: every (class, attribute) with such a guarded fill."""
+    chk.rule(rid, 'R-FRESH: lazily filled caches of derived values are initialised empty by the constructor (never supplied by the caller)', floor)
+    for cq, ci in sorted(repo.classes.items()):
+        if not any(ci.module.modname == m or ci.module.modname.startswith(m + '.') or ci.module.modname.startswith(m) for m in mod_prefixes):
+            continue
+        init = ci.methods.get('__init__')
+        if init is None:
+            continue
+        for mname, m in ci.methods.items():
+            if mname == '__init__':
+                continue
+            for i in [x for x in ast.walk(m.node) if isinstance(x, ast.If)]:
+                t = unparse(i.test)
+                mm = re.fullmatch(r'self\.(\w+) is None', t)
+                if not mm:
+                    continue
+                attr = mm.group(1)
+                if not any(isinstance(a, ast.Assign) and unparse(a.targets[0]) == f"self.{attr}" for a in i.body):
+                    continue
+                inits = [a for a in walk_no_nested(init.node) if isinstance(a, (ast.Assign, ast.AnnAssign))
+                         and unparse(a.targets[0] if isinstance(a, ast.Assign) else a.target) == f"self.{attr}"]
+                if not inits:
+                    continue
+                chk.uses(init, m)
+                ok = all(isinstance(a.value, ast.Constant) and a.value.value is None for a in inits)
+                chk.ob(rid, f"{ci.node.name}.{attr} (filled lazily by {mname}) starts as None", repo.loc(init, inits[0]), ok,
+                       f"{ci.node.name}.__init__ sets the cache `{attr}` to `{unparse(inits[0].value)}`: the value {mname}() would compute from the object can be bypassed by "
+                       "a value computed elsewhere", key=f"{cq}::{attr}::cache-starts-empty", fn=init.qual)
